@@ -40,8 +40,13 @@ def basisVector (b : Basis α) (i : Fin 3) : Vec 3 α := b.into i
 /-- a basis-setting operation, for histories on the process-wide `Pauli::basis()` -/
 inductive Op (α : Type) where
   | lin | circ | ell (c2o s2o c2e s2e : α)
-def apply (_ : Basis α) : Op α → Basis α
-  | .lin => linear | .circ => circular | .ell a b c d => elliptical a b c d
+  /-- `set_basis (Signal::Elliptical)`: the code is recorded, then the `switch` refuses it with an exception (which the
+  caller catches); the matrices and angles are left as they were -/
+  | refused
+/-- a refused setting: only the enumerator changes -/
+def refuse (b : Basis α) : Basis α := { b with code := 2 }
+def apply (b : Basis α) : Op α → Basis α
+  | .lin => linear | .circ => circular | .ell a b c d => elliptical a b c d | .refused => refuse b
 end Basis
 
 /-! ### Stokes vectors -/
